@@ -366,3 +366,29 @@ End Markov.
 
 Definition run_fast_SIS g tau gamma tmax i0 rho tmin full fuel (ds : list Q) :=
   exec (fast_SIS g tau gamma tmax i0 rho tmin full fuel) ds [].
+
+(* ------------------------------------------------------------------ *)
+(* executable checker of a pair of logs (newest first, as the simulators
+   build them) against the SIS generator on g: every infection has its
+   transmissions entry, hits a susceptible node and comes from an infectious
+   neighbour (or has no source: initial infection); every recovery hits an
+   infectious node.  Used in Props/C02fast.v. *)
+Fixpoint stat_of (elog : list (Q * node * N)) : node -> N :=
+  match elog with
+  | [] => fun _ => stS
+  | (_, v, s) :: rest => fupdN (stat_of rest) v s
+  end.
+Fixpoint log_ok (g : graph) (elog : list (Q * node * N)) (tlog : list (Q * option node * node)) : bool :=
+  match elog with
+  | [] => match tlog with [] => true | _ => false end
+  | (t, v, s) :: rest =>
+    if N.eqb s stI then
+      match tlog with
+      | (t', src, v') :: trest =>
+        Qeqb t t' && N.eqb v v' && N.eqb (stat_of rest v) stS &&
+        (match src with None => true | Some u => N.eqb (stat_of rest u) stI && mem v (gadj g u) end) &&
+        log_ok g rest trest
+      | [] => false
+      end
+    else N.eqb s stS && N.eqb (stat_of rest v) stI && log_ok g rest tlog
+  end.
